@@ -722,3 +722,135 @@ def _image_case(variant):
 
 CASES['dd.bdd._image[image]'] = ('dd.bdd._image', _image_case('image'))
 CASES['dd.bdd._image[preimage]'] = ('dd.bdd._image', _image_case('preimage'))
+
+
+# ---------------------------------------------------------------------------------------------------------------------
+# dd.autoref: handles are real Function objects kept alive in env; the ledger (ext = live handles) is what W6 determines
+from vlib.vc.symex import ObjV  # noqa: E402
+
+
+def new_autoref(rnd, reordering=False):
+    import dd.autoref as AR
+    m = AR.BDD()
+    n = rnd.randint(2, 4)
+    names = NAMES[:n]
+    order = list(names)
+    rnd.shuffle(order)
+    for nm in order:
+        m.add_var(nm)
+    hs = []
+    u = v = None
+    for _ in range(rnd.randint(1, 4)):
+        u = m.var(rnd.choice(names))
+        for _ in range(rnd.randint(0, 3)):
+            v = m.var(rnd.choice(names))
+            if rnd.random() < .3:
+                v = ~v
+            u = m.apply(rnd.choice(['and', 'or', 'xor', '=>']), u, v)
+        hs.append(u)
+    del u, v
+    import gc
+    gc.collect()
+    if rnd.random() < .5:
+        m.collect_garbage()
+    if reordering:
+        m.configure(reordering=True)
+    return dict(m=m, b=m._bdd, names=names, handles=hs, rnd=rnd)
+
+
+OWNER = ObjV('dd.autoref.BDD', {}, ident=IntVal(1))
+OTHER = ObjV('dd.autoref.BDD', {}, ident=IntVal(2))
+
+
+def zhandle(name, h, foreign=False):
+    """contract view of a handle argument: node, object with owner identity, not None"""
+    return {name: IntVal(h.node), name + '_obj': ObjV('dd.autoref.Function', {'bdd': OTHER if foreign else OWNER}), name + '_none': BoolVal(False)}
+
+
+def znohandle(name):
+    return {name: IntVal(0), name + '_obj': ObjV('dd.autoref.Function', {'bdd': OWNER}), name + '_none': BoolVal(True)}
+
+
+def handle_ret(env, r):
+    env['result_handle'] = r      # keep it alive until the exit state has been read
+    return IntVal(r.node)
+
+
+def aref_case(contract, build_extra, call, zargs, describe, ret=handle_ret):
+    def c_(seed):
+        def build(rnd):
+            env = new_autoref(rnd)
+            build_extra(env, rnd)
+            return env
+        return Case(contract, seed, build, call, zargs, describe, ret=ret)
+    return c_
+
+
+def pick_h(env, rnd):
+    return rnd.choice(env['handles'])
+
+
+CASES['dd.autoref.BDD.var'] = ('dd.autoref.BDD.var', aref_case(
+    'dd.autoref.BDD.var', lambda e, r: e.update(var=r.choice(NAMES[:5])), lambda e: e['m'].var(e['var']),
+    lambda e: dict(self=OWNER, var=NAMEZ[e['var']]), lambda e: dict(call='autoref.var', var=e['var'])))
+CASES['dd.autoref.BDD.ite'] = ('dd.autoref.BDD.ite', aref_case(
+    'dd.autoref.BDD.ite', lambda e, r: e.update(g=pick_h(e, r), u=pick_h(e, r), v=pick_h(e, r)), lambda e: e['m'].ite(e['g'], e['u'], e['v']),
+    lambda e: dict(self=OWNER, **zhandle('g', e['g']), **zhandle('u', e['u']), **zhandle('v', e['v'])),
+    lambda e: dict(call='autoref.ite', g=e['g'].node, u=e['u'].node, v=e['v'].node)))
+
+
+def _aapply_build(e, r):
+    k = r.random()
+    if k < .2:
+        e.update(op=r.choice(['~', 'not', '!']), u=pick_h(e, r), v=None, w=None)
+    elif k < .8:
+        e.update(op=r.choice(OPS2), u=pick_h(e, r), v=pick_h(e, r), w=None)
+    else:
+        e.update(op='ite', u=pick_h(e, r), v=pick_h(e, r), w=pick_h(e, r))
+
+
+CASES['dd.autoref.BDD.apply'] = ('dd.autoref.BDD.apply', aref_case(
+    'dd.autoref.BDD.apply', _aapply_build, lambda e: e['m'].apply(e['op'], e['u'], e['v'], e['w']),
+    lambda e: dict(self=OWNER, op=e['op'], **zhandle('u', e['u']), **(zhandle('v', e['v']) if e['v'] is not None else znohandle('v')),
+                   **(zhandle('w', e['w']) if e['w'] is not None else znohandle('w'))),
+    lambda e: dict(call='autoref.apply', op=e['op'], u=e['u'].node, v=e['v'] and e['v'].node, w=e['w'] and e['w'].node)))
+
+for _nm in ('forall', 'exist'):
+    CASES['dd.autoref.BDD.' + _nm] = ('dd.autoref.BDD.' + _nm, aref_case(
+        'dd.autoref.BDD.' + _nm, lambda e, r: e.update(u=pick_h(e, r), qvars=set(r.sample(e['names'], r.randint(0, len(e['names']))))),
+        (lambda nm: lambda e: getattr(e['m'], nm)(e['qvars'], e['u']))(_nm),
+        lambda e: dict(self=OWNER, qvars=with_len(zset_name(e['qvars']), len(e['qvars'])), **zhandle('u', e['u'])),
+        (lambda nm: lambda e: dict(call='autoref.' + nm, qvars=sorted(e['qvars']), u=e['u'].node))(_nm)))
+
+for _nm, _op in (('__and__', 'and'), ('__or__', 'or'), ('implies', 'implies'), ('equiv', 'equiv')):
+    CASES['dd.autoref.Function.' + _nm] = ('dd.autoref.Function.' + _nm, aref_case(
+        'dd.autoref.Function.' + _nm, lambda e, r: e.update(x=pick_h(e, r), y=pick_h(e, r)),
+        (lambda nm: lambda e: getattr(e['x'], nm)(e['y']))(_nm),
+        lambda e: dict(self=IntVal(e['x'].node), self_obj=ObjV('dd.autoref.Function', {'bdd': OWNER}), **zhandle('other', e['y'])),
+        (lambda nm: lambda e: dict(call='Function.' + nm, self=e['x'].node, other=e['y'].node))(_nm)))
+CASES['dd.autoref.Function.__invert__'] = ('dd.autoref.Function.__invert__', aref_case(
+    'dd.autoref.Function.__invert__', lambda e, r: e.update(x=pick_h(e, r)), lambda e: ~e['x'],
+    lambda e: dict(self=IntVal(e['x'].node), self_obj=ObjV('dd.autoref.Function', {'bdd': OWNER})), lambda e: dict(call='Function.__invert__', self=e['x'].node)))
+for _nm in ('__le__', '__lt__'):
+    CASES['dd.autoref.Function.' + _nm] = ('dd.autoref.Function.' + _nm, aref_case(
+        'dd.autoref.Function.' + _nm, lambda e, r: e.update(x=pick_h(e, r), y=pick_h(e, r)),
+        (lambda nm: lambda e: getattr(e['x'], nm)(e['y']))(_nm),
+        lambda e: dict(self=IntVal(e['x'].node), self_obj=ObjV('dd.autoref.Function', {'bdd': OWNER}), **zhandle('other', e['y'])),
+        (lambda nm: lambda e: dict(call='Function.' + nm, self=e['x'].node, other=e['y'].node))(_nm), ret=None))
+
+
+@case('dd._utils.assert_operator_arity')
+def c_arity(seed):
+    def build(rnd):
+        env = new_manager(rnd, nvars=2)
+        ops = OPS2 + ['~', 'not', '!', 'ite', '\\A', '\\E', 'forall', 'exists', 'nand', '']
+        env.update(op=rnd.choice(ops), v=rnd.choice([None, 1, -1]), w=rnd.choice([None, None, 1]))
+        return env
+
+    def call(e):
+        import dd._utils as U
+        return U.assert_operator_arity(e['op'], e['v'], e['w'], 'bdd')
+    return Case('dd._utils.assert_operator_arity', seed, build, call,
+                lambda e: dict(op=e['op'], v=zint(e['v'] or 0), w=zint(e['w'] or 0), v_none=BoolVal(e['v'] is None), w_none=BoolVal(e['w'] is None),
+                               diagram_type='bdd'),
+                lambda e: dict(call='assert_operator_arity', op=e['op'], v=e['v'], w=e['w']))
